@@ -7,12 +7,14 @@ import YaegiVerif.Model.ConcFrames
 namespace YaegiVerif.Expected.C08
 open YaegiVerif.Conc YaegiVerif.ConcFrames
 
-/-- only `_select` writes a generator-level variable at run time: `cases := make([]reflect.SelectCase, nbClause+1)`
-    is built once per statement and every execution stores `cases[i].Chan`, `cases[i].Send`, `cases[nbClause]` (F08) -/
-def closureWrites : CW := [("_select", ["cases"])]
+/-- no closure of run.go / op.go / value.go writes a variable of its generator: since the repair of F08 (`fix:`
+    commit in _select) every execution of a select statement works on its own copy of the case vector -/
+def closureWrites : CW := []
 
-/-- the table after the minimal repair of F08 (a per-execution copy of `cases`) -/
-def closureWritesFixed : CW := []
+/-- the table BEFORE the repair: `cases := make([]reflect.SelectCase, nbClause+1)` was built once per statement and
+    every execution stored `cases[i].Chan`, `cases[i].Send`, `cases[nbClause]` into it (F08); kept for the
+    regression statements of Props/C08.lean -/
+def closureWritesOld : CW := [("_select", ["cases"])]
 
 /-- generators named by the model's statement kinds and by the frame model -/
 def modelledGenerators : List String :=
@@ -35,6 +37,7 @@ def goFacts : GoFacts :=
     cloneCopiesData := true,
     selectDoneLocked := true,
     casesPerStatement := true,
+    selectCopiesCases := true,
     callArgStores := ["dest[i] = genFunctionWrapper(nod)(f)", "dest[i].Set(val)", "vararg.Set(reflect.Append(vararg, v(f)))", "vararg.Set(v(f))"],
     frameCellInits := ["nf.data[i] = reflect.New(def.types[i]).Elem()", "nf.data[i] = v(f)", "nf.data[numRet+i] = reflect.New(t).Elem()"],
     goStmts := ["call: go callf(in)", "call: go runCfg(def.child[3].start, nf, def, n)"],
@@ -43,7 +46,7 @@ def goFacts : GoFacts :=
 /-- fingerprints of the functions transcribed by Model/Conc.lean (`_select`, `clauseChanDir`) and
     Model/ConcFrames.lean (`getFunc`, `frame.clone`, `newFrame`) -/
 def sourceHashes : List (String × String) :=
-  [("_select", "4695ecebb652e1cc"),
+  [("_select", "2bbda403c6b5a323"),
    ("clauseChanDir", "e18ff69b4ff5aab6"),
    ("getFunc", "e1777a5459c1a52e"),
    ("frame.clone", "ccd71f62c6588b0a"),
